@@ -12,7 +12,7 @@ for d in /verif/seeded/*/; do
   if ! git -C "$WT" apply --3way "$d/patch.diff" 2>/dev/null; then echo "$id $prop PATCH-DOES-NOT-APPLY"; git -C "$WT" checkout -q -- .; continue; fi
   git -C "$WT" reset -q
   if ! (cd "$WT" && GOPROXY=off GOSUMDB=off GOTOOLCHAIN=local go build ./... 2>/dev/null); then echo "$id $prop DOES-NOT-BUILD"; git -C "$WT" checkout -q -- .; continue; fi
-  out=$(VERIF_REPO=$WT /verif/bin/simcheck $prop -tier quick -secs $SECS 2>&1)
+  out=$(VERIF_EVIDENCE_DIR=/tmp/mut-evidence VERIF_REPLAY_DIR=/tmp/mut-replays VERIF_REPO=$WT /verif/bin/simcheck $prop -tier quick -secs $SECS 2>&1)
   rc=$?
   first=$(printf '%s\n' "$out" | grep '^violation:' | head -1 | cut -c1-110)
   n=$(printf '%s\n' "$out" | grep -c '^VIOLATION')
